@@ -573,4 +573,4 @@ def run(chk):
             dec_ = [p_ for p_ in prog.bodies if p_.endswith("PercentDecode>::percent_decode")]
             chk.floor("percent_decode fn", len(dec_), 1)
             if dec_:
-                c18.percent_decode(chk, prog, orc_, dec_[0])
+                c18.percent_decode(chk, prog, orc_, dec_[0], owner=False)
